@@ -616,7 +616,6 @@ func vDumpAll(path string) {
 	os.WriteFile(path, buf[:n], 0o644)
 }
 
-
 // vStallWatch (real time, outside any bubble) looks for the one state a bubble
 // cannot get out of: a goroutine of the bubble waiting for a sync.Mutex /
 // RWMutex (not a durable block, so virtual time stands still) while every
